@@ -7,6 +7,10 @@ ENGINES = [
 NOTES = "All checks: /venv/bin/python /verif/check.py <ID> --tier quick|thorough. They import wannierberri from /repo's working tree (no build step)."
 NOT_APPLICABLE = {}
 CHECKS = {
+ "C11": {"level": "fault_enumeration", "engine": "refine-bfs",
+         "technique": "exhaustive enumeration of stop points x restart splits x storage modes x directory-listing permutations on the real run()",
+         "text": "for steered refinements of N=2..3 (quick) / 2..4 (thorough) iterations on 1D/2D/3D/symmetric grids, every stopping point, every composition of the remaining iterations into restart segments, both storage modes (allow_restart, dump_results) and every permutation of the factors_iter-* directory listing at every restart (the glob seen by run_grid is a choice point of the schedule explorer) are executed as chains of real run() calls in one directory; every result saved or returned after a restart must equal the uninterrupted run's result for the same global iteration",
+         "note": "restarts only at iteration boundaries (as the statement says); restart_iteration=-1; directory listing modelled as an arbitrary permutation; per-K results scripted"},
  "C10": {"level": "model_checking", "engine": "refine-bfs",
          "technique": "explicit-state exploration of all steered refinement histories through the real run(), oracle on every state",
          "text": "every history of refinement choices (every subset of adpt_fac live K-points at every iteration) up to depth 2 (quick) / 3 (thorough) is executed through the real run() in the storage modes memory / allow_restart / dump_results, on 1D, 2D, 3D and symmetric (Oh-like, C3z) grids, adpt_mesh 2/3/(2,1,1), adpt_fac 1/2, tensor rank 0/1; after every iteration the integral run() saved and returned is compared with sum_K factor_K*R(K) recomputed from a snapshot of run()'s live K-point list taken at that moment; weights must sum to 1 and all storage modes must agree",
